@@ -62,6 +62,11 @@ class _Glob:
 		LOG.append(('glob.glob', str(pattern)))
 		return ['/abs/old-1.json'] if ENV['exists'] else []
 
+	@staticmethod
+	def escape(pathname: str) -> str:
+		import glob
+		return glob.escape(pathname)
+
 
 class _File(io.BytesIO):
 	def __init__(self, path: str, mode: str) -> None:
